@@ -104,3 +104,10 @@ def search(ctx):
 
 def replay(ctx, case):
     return replay_eval(ctx, "C04", case)
+
+
+MANIFEST = dict(
+    text="Proof (PARTIAL): the recursion step of Qdmcu (Barenco Lemma 7.5) for any placement and any 'rest' predicate (C04_barenco_step), and the fourth-root identity of Ldmcsu._compute_gate_a over the reals (C04_gate_a_fourth_root); the V-chains they use are C05's theorems. Tie: every custom_sqrtm and _compute_gate_a call made while building gates for boundary and random SU(2) matrices is checked against the theorem's premises/conclusion in matrix form. All gate classes (Ldmcu, Ldmcsu, LdMcSpecialUnitary, Qdmcu, Mcg, MCU, MultiTargetMCSU2), patterns and boundary matrices are evaluated against the ideal controlled operator.",
+    note='Modelled, not verified: Qiskit .control(), UnitaryGate; Ldmcu ladder, eigenbasis branch, ABC decomposition, MCU bound, multi-target variant are evaluated only.',
+    technique='Coq proof (operator algebra on monomial/permuted states; real sqrt algebra) + runtime contract monitors + operator / random-state evaluation',
+    design_ref='DESIGN.md section 4, C04')
